@@ -167,16 +167,32 @@ fn check_archive(run: &Run, root: &Path, n_bands: u32, with_filters: bool, repla
     true
 }
 
+/// Like band_states, plus every state with one empty hunk inserted at every position.
+pub fn band_states_with_empty_hunk(p: usize) -> Vec<BandState> {
+    let base = band_states(p);
+    let mut v = base.clone();
+    for st in &base {
+        if let BandState::Present { hunks, complete } = st {
+            for pos in 0..=hunks.len() {
+                let mut h = hunks.clone();
+                h.insert(pos, Vec::new());
+                v.push(BandState::Present { hunks: h, complete: *complete });
+            }
+        }
+    }
+    v
+}
+
 fn sorted_paths(mut v: Vec<String>) -> Vec<String> {
     v.sort_by(|a, b| apath_cmp(a, b));
     v
 }
 
-fn exhaustive(run: &Run, b: usize, p: usize, paths: &[String]) {
-    let states = band_states(p);
+fn exhaustive(run: &Run, b: usize, p: usize, paths: &[String], with_empty: bool) {
+    let states = if with_empty { band_states_with_empty_hunk(p) } else { band_states(p) };
     let total = (states.len() as u64).pow(b as u32);
     let threads = super::threads() as u64;
-    let name = format!("B{b}P{p}");
+    let name = format!("B{b}P{p}{}", if with_empty { "E" } else { "" });
     run.count(&format!("space_{name}"), total);
     let done = std::sync::atomic::AtomicU64::new(0);
     std::thread::scope(|s| {
@@ -252,6 +268,11 @@ fn random_case(run: &Run, case: u64) {
                 hunks.last_mut().unwrap().push(pi);
             }
         }
+        // empty hunks are legal (old versions wrote them): insert one now and then
+        if rng.chance(1, 3) {
+            let pos = rng.below(hunks.len() as u64 + 1) as usize;
+            hunks.insert(pos, Vec::new());
+        }
         bands.push(BandState::Present { hunks, complete: rng.chance(1, 3) });
     }
     let sc = Scratch::new("c08r");
@@ -292,13 +313,15 @@ pub fn run(tier: Tier, replay: Option<Value>) -> i32 {
     let p2 = sorted_paths(vec!["/a".into(), "/a/x".into()]);
     if let Some(r) = &replay {
         if let Some(space) = r.get("space").and_then(|s| s.as_str()) {
-            let (b, p, paths) = match space {
-                "B2P4" => (2, 4, &p4),
-                "B3P3" => (3, 3, &p3),
-                "B3P4" => (3, 4, &p4),
-                _ => (4, 2, &p2),
+            let (b, p, paths, e) = match space {
+                "B2P4" => (2, 4, &p4, false),
+                "B3P3" => (3, 3, &p3, false),
+                "B3P4" => (3, 4, &p4, false),
+                "B2P3E" => (2, 3, &p3, true),
+                "B3P2E" => (3, 2, &p2, true),
+                _ => (4, 2, &p2, false),
             };
-            let states = band_states(p);
+            let states = if e { band_states_with_empty_hunk(p) } else { band_states(p) };
             let mut x = r["index"].as_u64().unwrap();
             let mut bands = Vec::new();
             for _ in 0..b {
@@ -316,16 +339,18 @@ pub fn run(tier: Tier, replay: Option<Value>) -> i32 {
         return run.finish("replay", &[], None, &[]);
     }
     run.sample(|| json!({"path_alphabets": {"P4": p4, "P3": p3, "P2": p2}, "band_states_P4": band_states(4).len(), "band_states_P3": band_states(3).len()}));
-    exhaustive(&run, 2, 4, &p4);
-    exhaustive(&run, 3, 3, &p3);
+    exhaustive(&run, 2, 4, &p4, false);
+    exhaustive(&run, 3, 3, &p3, false);
+    exhaustive(&run, 2, 3, &p3, true);
     if tier == Tier::Thorough {
-        exhaustive(&run, 4, 2, &p2);
-        exhaustive(&run, 3, 4, &p4);
+        exhaustive(&run, 4, 2, &p2, false);
+        exhaustive(&run, 3, 2, &p2, true);
+        exhaustive(&run, 3, 4, &p4, false);
     }
     run.par_cases(tier.pick(3000, 50_000), super::threads(), |c| random_case(&run, c));
     let exhaustive_ok = run.counter("exhaustive_spaces_cut_short") == 0;
     run.finish(
-        "archives written directly in the documented format by the harness: every assignment of {absent, every subset of a P-path alphabet x every split into consecutive non-empty hunks (or no hunk) x {complete, incomplete}} to B bands, exhaustively for (B=2,P=4) and (B=3,P=3) [thorough: also (B=4,P=2), (B=3,P=4)]; each entry is a symlink whose target names its band and path. For every existing N the real iter_entries(Specified(N)) must equal the executable stitching rule over the raw files (paths and targets), be strictly increasing under the C11 order model and finish within 50000 storage operations; on a 1-in-16 sample also with 5 subtrees and 4 exclusion sets against the filtered model. Random archives beyond (<=6 bands, <=12 paths, random splits, a removed hunk file in a third of them). Distinct non-trivial = archives with an incomplete band and >= 2 existing bands (exhaustive part, by index) + random cases.",
+        "archives written directly in the documented format by the harness: every assignment of {absent, every subset of a P-path alphabet x every split into consecutive non-empty hunks (or no hunk) x {complete, incomplete}} to B bands, exhaustively for (B=2,P=4) and (B=3,P=3), and for (B=2,P=3) with one EMPTY hunk (a json [] as old versions wrote) inserted at every position [thorough: also (B=4,P=2), (B=3,P=4), (B=3,P=2) with an empty hunk]; each entry is a symlink whose target names its band and path. For every existing N the real iter_entries(Specified(N)) must equal the executable stitching rule over the raw files (paths and targets), be strictly increasing under the C11 order model and finish within 50000 storage operations; on a 1-in-16 sample also with 5 subtrees and 4 exclusion sets against the filtered model. Random archives beyond (<=6 bands, <=12 paths, random splits, an empty hunk inserted in a third of the bands, a removed hunk file in a third of the archives). Distinct non-trivial = archives with an incomplete band and >= 2 existing bands (exhaustive part, by index) + random cases.",
         &["fmt06 writer produces what doc/format.md describes (cross-checked: conserve lists them)", "stitching rule as stated in oracle::stitch_model"],
         Some(exhaustive_ok),
         &[("listings_compared", 1000), ("listings_spanning_several_bands", 100), ("filtered_listings_compared", 100), ("random_archives", 100)],
